@@ -1,7 +1,6 @@
-(** C05/C06/C07 — comparison of implementation observations with the model (run by the checks).
-    The byte codecs enter as tables computed by the harness with the real functions
-    (bincode for records and snapshots, crc32fast for checksums). *)
-From GV Require Export Wal.Classes Wal.Codec.
+(** C05/C06/C07 — what the generated case files import: the comparison functions of Wal/Cmp.v
+    plus the unpacking of byte-string literals. *)
+From GV Require Export Wal.Cmp.
 From Coq Require Export Uint63.
 Open Scope Z_scope.
 
@@ -18,261 +17,3 @@ Fixpoint pk_go (len : nat) (l : list int) : list Z :=
 Definition pk (len : Z) (l : list int) : list Z := pk_go (Z.to_nat len) l.
 Arguments pk len%Z l%uint63.
 
-(** * Codec tables *)
-Record tabs := mkTabs {
-  tb_enc : list (record * bytes * Z);   (* record, its bincode bytes, crc32 of those bytes *)
-  tb_dec : list (bytes * record);       (* further payloads the real decoder accepts *)
-  tb_crc : list (bytes * Z)             (* crc32 of further byte strings met while reading damaged files *)
-}.
-Definition tenc (t : tabs) (r : record) : bytes :=
-  match find (fun e => record_eqb (fst (fst e)) r) (tb_enc t) with Some e => snd (fst e) | None => [] end.
-Definition tcrc (t : tabs) (bs : bytes) : Z :=
-  match find (fun e => zlist_eqb (snd (fst e)) bs) (tb_enc t) with
-  | Some e => snd e
-  | None => match find (fun e => zlist_eqb (fst e) bs) (tb_crc t) with Some e => snd e | None => -1 end
-  end.
-Definition tdec (t : tabs) (bs : bytes) : option record :=
-  match find (fun e => zlist_eqb (fst e) bs) (tb_dec t) with
-  | Some e => Some (snd e)
-  | None => match find (fun e => zlist_eqb (snd (fst e)) bs) (tb_enc t) with Some e => Some (fst (fst e)) | None => None end
-  end.
-
-(** * Order-insensitive comparison of dumps (hash-map iteration order is not modelled) *)
-Definition subset {A} (eqb : A -> A -> bool) (l1 l2 : list A) : bool := forallb (fun x => existsb (eqb x) l2) l1.
-Definition set_eqb {A} (eqb : A -> A -> bool) (l1 l2 : list A) : bool :=
-  (length l1 =? length l2)%nat && subset eqb l1 l2 && subset eqb l2 l1.
-Definition prop_eqb (a b : str * value) : bool := str_eqb (fst a) (fst b) && str_eqb (snd a) (snd b).
-Definition dnode_eqb (a b : dnode) : bool :=
-  let '(i, l, p) := a in let '(j, m, q) := b in (i =? j) && set_eqb str_eqb l m && set_eqb prop_eqb p q.
-Definition dedge_eqb (a b : dedge) : bool :=
-  let '(i, s, d, t, p) := a in let '(j, s', d', t', q) := b in
-  (i =? j) && (s =? s') && (d =? d') && str_eqb t t' && set_eqb prop_eqb p q.
-Fixpoint forall2b {A B} (f : A -> B -> bool) (l1 : list A) (l2 : list B) : bool :=
-  match l1, l2 with
-  | [], [] => true
-  | a :: r1, b :: r2 => f a b && forall2b f r1 r2
-  | _, _ => false
-  end.
-Definition gdump := (list dnode * list dedge)%type.
-Definition dump_eqb (a b : gdump) : bool := set_eqb dnode_eqb (fst a) (fst b) && set_eqb dedge_eqb (snd a) (snd b).
-
-Definition recs_eqb : list record -> list record -> bool := list_eqb record_eqb.
-Definition rrecs_eqb (a b : rres (list record)) : bool :=
-  match a, b with ROk x, ROk y => recs_eqb x y | RErr, RErr => true | _, _ => false end.
-Definition meta_eqb (a b : metafile) : bool :=
-  match a, b with
-  | MetaAbsent, MetaAbsent | MetaBad, MetaBad => true
-  | MetaOk x, MetaOk y => (m_epoch x =? m_epoch y) && (m_seq x =? m_seq y) && (m_tx x =? m_tx y)
-  | _, _ => false
-  end.
-Definition zz_eqb (a b : Z * Z) : bool := (fst a =? fst b) && (snd a =? snd b).
-Definition files_eqb (fs : list (Z * file)) (obs : list (Z * bytes)) : bool :=
-  forall2b (fun sf sb => (fst sf =? fst sb) && zlist_eqb (f_bytes (snd sf)) (snd sb)) fs obs.
-Definition mkfiles (obs : list (Z * bytes)) : list (Z * file) :=
-  map (fun sb => (fst sb, mkFile (snd sb) (lenZ (snd sb)) (lenZ (snd sb)))) obs.
-
-(** * (i) writer bytes: a [WalManager] driven through [ops] from an empty directory.
-    [vis]: after every operation the length of each log file as the file system reports it
-    (= bytes flushed by the process); [syn]: after every operation the model's synced length
-    of the active file as far as the harness can tell (Some n) ; final files, metadata, temp
-    file, and what [WalRecovery::recover] returns on the final directory *)
-Fixpoint chk_wal_steps (t : tabs) (cfg : wcfg) (w : wstate) (ops : list wop)
-         (vis : list (list (Z * Z))) : bool * wstate :=
-  match ops, vis with
-  | [], [] => (true, w)
-  | o :: r, v :: vr =>
-      let w1 := wstep (tcrc t) (tenc t) cfg w o in
-      let ok := list_eqb zz_eqb (map (fun sf => (fst sf, f_flushed (snd sf))) (d_files (w_disk w1))) v in
-      let '(okr, w2) := chk_wal_steps t cfg w1 r vr in (ok && okr, w2)
-  | _, _ => (false, w)
-  end.
-Definition chk_wal (t : tabs) (cfg : wcfg) (ops : list wop) (vis : list (list (Z * Z)))
-           (final : list (Z * bytes)) (meta : metafile) (tmp : bool) (rec : rres (list record)) : bool :=
-  let '(ok, w) := chk_wal_steps t cfg (wopen empty_disk) ops vis in
-  let d := wdrop w in
-  ok && files_eqb (d_files d) final && meta_eqb (d_meta d) meta && Bool.eqb (d_tmp d) tmp
-  && rrecs_eqb (recover (tcrc t) (tdec t) d) rec.
-(** [syn]: after every operation, for each log file the size it had when it was last fsynced
-    (0 = never), as observed by the harness, which interposes fsync in its own process *)
-Fixpoint chk_wal_syn_steps (t : tabs) (cfg : wcfg) (w : wstate) (ops : list wop) (syn : list (list (Z * Z))) : bool :=
-  match ops, syn with
-  | [], [] => true
-  | o :: r, v :: vr =>
-      let w1 := wstep (tcrc t) (tenc t) cfg w o in
-      list_eqb zz_eqb (map (fun sf => (fst sf, f_synced (snd sf))) (d_files (w_disk w1))) v
-      && chk_wal_syn_steps t cfg w1 r vr
-  | _, _ => false
-  end.
-Definition chk_wal_syn (t : tabs) (cfg : wcfg) (ops : list wop) (syn : list (list (Z * Z))) : bool :=
-  chk_wal_syn_steps t cfg (wopen empty_disk) ops syn.
-(** synced lengths the model assigns to the files at the end (shown for diagnostics and
-    compared where the harness can observe them) *)
-Definition wal_synced (t : tabs) (cfg : wcfg) (ops : list wop) : list (Z * Z) :=
-  map (fun sf => (fst sf, f_synced (snd sf))) (d_files (w_disk (wrun (tcrc t) (tenc t) cfg (wopen empty_disk) ops))).
-Definition chk_wal_synced (t : tabs) (cfg : wcfg) (ops : list wop) (syn : list (Z * Z)) : bool :=
-  list_eqb zz_eqb (wal_synced t cfg ops) syn.
-
-(** * (ii) recovery as a function of bytes *)
-Inductive obs_open := OpenErr | OpenPanic | OpenOk (dmp : gdump) (nn ne : Z).
-Definition chk_img (t : tabs) (files : list (Z * bytes)) (meta : metafile) (tmp : bool)
-           (rec : rres (list record)) (opn : obs_open) : bool :=
-  let d := mkDisk (mkfiles files) meta tmp in
-  rrecs_eqb (recover (tcrc t) (tdec t) d) rec
-  && match db_open (tcrc t) (tdec t) d, opn with
-     | RErr, OpenErr => true
-     | ROk st, OpenOk dmp nn ne =>
-         dump_eqb (dump (db_store st) latest) dmp && (s_nn (db_store st) =? nn) && (s_ne (db_store st) =? ne)
-     | _, _ => false
-     end.
-Definition show_img (t : tabs) (files : list (Z * bytes)) (meta : metafile) :=
-  recover (tcrc t) (tdec t) (mkDisk (mkfiles files) meta false).
-
-(** * (iii) histories of a [GrafeoDB] *)
-Inductive reobs := ReErr | RePanic | ReOk (cur lat : gdump).
-Record sessobs := mkSO {
-  o_outs : list out;
-  o_cur : gdump;                   (* dump through get_node/get_edge (store epoch) before the end *)
-  o_lat : gdump;                   (* dump at the latest epoch before the end *)
-  o_files : list (Z * bytes);      (* the directory the next open finds *)
-  o_meta : metafile;
-  o_re : reobs
-}.
-Definition chk_sess (m : sobs) (o : sessobs) : bool :=
-  list_eqb out_eqb (so_outs m) (o_outs o)
-  && dump_eqb (dump (so_before m) (s_epoch (so_before m))) (o_cur o)
-  && dump_eqb (dump (so_before m) latest) (o_lat o)
-  && files_eqb (d_files (so_disk m)) (o_files o) && meta_eqb (d_meta (so_disk m)) (o_meta o)
-  && match so_after m, o_re o with
-     | RErr, ReErr => true
-     | ROk s, ReOk cur lat => dump_eqb (dump s (s_epoch s)) cur && dump_eqb (dump s latest) lat
-     | _, _ => false
-     end.
-Definition chk_db (t : tabs) (cfg : wcfg) (ss : list session) (obs : list sessobs) : bool :=
-  forall2b chk_sess (fst (run_sessions (tcrc t) (tenc t) (tdec t) cfg (db_fresh) ss)) obs.
-Definition show_db (t : tabs) (cfg : wcfg) (ss : list session) :=
-  map (fun m => (so_outs m, dump (so_before m) latest, d_meta (so_disk m),
-                 map (fun sf => (fst sf, lenZ (f_bytes (snd sf)), f_synced (snd sf))) (d_files (so_disk m)),
-                 match so_after m with ROk s => Some (dump s latest) | RErr => None end))
-      (fst (run_sessions (tcrc t) (tenc t) (tdec t) cfg (db_fresh) ss)).
-(** synced length of every file of the directory at the end of the last session *)
-Definition db_synced (t : tabs) (cfg : wcfg) (ss : list session) : list (Z * Z) :=
-  match rev (fst (run_sessions (tcrc t) (tenc t) (tdec t) cfg (db_fresh) ss)) with
-  | m :: _ => map (fun sf => (fst sf, f_synced (snd sf))) (d_files (so_disk m))
-  | [] => []
-  end.
-
-(** classes, instantiated with the tables *)
-Definition kc05_1 t := k05_1 (tcrc t) (tenc t) (tdec t).
-Definition kc05_2 t := k05_2 (tcrc t) (tenc t) (tdec t).
-Definition kc05_3 t := k05_3 (tcrc t) (tenc t) (tdec t).
-Definition kc05_4 t := k05_4 (tcrc t) (tenc t) (tdec t).
-(** the directory the last session of [ss] leaves behind, before the cuts of a crash *)
-Definition pre_crash_disk (t : tabs) (cfg : wcfg) (ss : list session) : disk :=
-  match rev ss with
-  | [] => empty_disk
-  | (os, _) :: before =>
-      match snd (run_sessions (tcrc t) (tenc t) (tdec t) cfg (db_fresh) (rev before)) with
-      | ROk st => wdrop (db_w (fst (run_ops (tcrc t) (tenc t) cfg st os)))
-      | RErr => empty_disk
-      end
-  end.
-Definition kc06_1 t cfg ss := k06_1 (tcrc t) (tdec t) (pre_crash_disk t cfg ss).
-Definition img_disk (files : list (Z * bytes)) (meta : metafile) : disk := mkDisk (mkfiles files) meta false.
-Definition kc06_2 t files meta := k06_2 (tcrc t) (tdec t) (img_disk files meta).
-Definition kc06_3 t orig files meta := k06_3 (tcrc t) (tdec t) (img_disk orig meta) (img_disk files meta).
-Definition kc06_5 t files meta := k06_5 (tcrc t) (tdec t) (img_disk files meta).
-(** WalManager level: some file the recovery skips holds a data record *)
-Definition kc05_4_wal (t : tabs) (files : list (Z * bytes)) (meta : metafile) : bool :=
-  existsb (fun sf => (fst sf <? min_seq meta) && existsb is_data (file_records (tcrc t) (tdec t) (snd sf))) (mkfiles files).
-
-(** * (iv) snapshots *)
-Definition run_store (os : list op) : store * tm :=
-  fold_left (fun st o => match op_effect (fst st) (snd st) o with (s1, t1, _, _) => (s1, t1) end) os (empty_store, tm0).
-Definition snap_eqb (a b : snapshot) : bool :=
-  (sn_version a =? sn_version b) && set_eqb dnode_eqb (sn_nodes a) (sn_nodes b) && set_eqb dedge_eqb (sn_edges a) (sn_edges b).
-Inductive cobs := CErr | CPanic | CAbort | COk (cur lat : gdump) (nn ne : Z).
-Definition chk_copy (m : store) (o : cobs) : bool :=
-  match o with
-  | COk cur lat nn ne => dump_eqb (dump m (s_epoch m)) cur && dump_eqb (dump m latest) lat && (s_nn m =? nn) && (s_ne m =? ne)
-  | _ => false
-  end.
-(** [src_cur]/[src_lat]: dumps of the source after all copies were taken (source unchanged);
-    [sn]: the exported bytes decoded by the harness; [imp], [mem], [sav], [oim]: import of the exported
-    bytes, to_memory(), save()+open(), open_in_memory() of a copy of the saved directory.  save() enumerates the source exactly as export does (hash-map
-    order, not modelled), so the model saves the store rebuilt from the observed enumeration [sn],
-    which [snap_eqb] ties to the model's own snapshot as a set *)
-Definition chk_snap (t : tabs) (cfg : wcfg) (os : list op) (src_cur src_lat : gdump) (sn : snapshot)
-           (imp mem : cobs) (sav oim : cobs) : bool :=
-  let s := fst (run_store os) in
-  dump_eqb (dump s (s_epoch s)) src_cur && dump_eqb (dump s latest) src_lat
-  && snap_eqb (snapshot_of s) sn
-  && chk_copy (build sn) imp
-  && chk_copy (to_memory s) mem
-  && match save_open (tcrc t) (tenc t) (tdec t) cfg (build sn), sav, oim with
-     | ROk m, COk _ _ _ _, COk _ _ _ _ => chk_copy m sav && chk_copy (to_memory m) oim   (* open_in_memory = open; to_memory; close *)
-     | RErr, CErr, CErr => true
-     | _, _, _ => false
-     end.
-Definition kc07_1 (os : list op) : bool := k07_1 (fst (run_store os)).
-
-(** import of arbitrary bytes: [d] is what the real decoder makes of them *)
-Definition chk_import (d : option (snapshot * nat)) (o : cobs) : bool :=
-  match import (fun _ => d) [] , o with
-  | IErr, CErr => true
-  | IPanic, CPanic => true
-  | IOk m, COk _ _ _ _ => chk_copy m o
-  | _, _ => false
-  end.
-
-(** the model's synced length of file [seq] just before the crash that ends the last session *)
-Definition chk_pre_synced (t : tabs) (cfg : wcfg) (ss : list session) (seq n : Z) : bool :=
-  match get_file seq (d_files (pre_crash_disk t cfg ss)) with
-  | Some f => f_synced f =? n
-  | None => false
-  end.
-
-(** * (0) the concrete codecs of Wal/Codec.v against the real functions: every table entry of a
-    run (bincode bytes and CRC-32 of every record written, decoding of every payload read),
-    decoding of damaged record payloads, snapshot bytes, checkpoint metadata bytes *)
-Definition chk_enc (r : record) (bs : bytes) (c : Z) : bool := zlist_eqb (enc_record r) bs && (crc32 bs =? c).
-Definition chk_dec (bs : bytes) (o : option record) : bool := option_eqb record_eqb (dec_record_slice bs) o.
-Definition chk_tabs (t : tabs) : bool :=
-  forallb (fun e => chk_enc (fst (fst e)) (snd (fst e)) (snd e) && chk_dec (snd (fst e)) (Some (fst (fst e)))) (tb_enc t)
-  && forallb (fun e => chk_dec (fst e) (Some (snd e))) (tb_dec t)
-  && forallb (fun e => crc32 (fst e) =? snd e) (tb_crc t).
-Definition show_dec (bs : bytes) := dec_record_slice bs.
-
-Definition props_exact_eqb : props -> props -> bool := list_eqb prop_eqb.
-Definition dnode_exact_eqb (a b : dnode) : bool :=
-  let '(i, l, p) := a in let '(j, m, q) := b in (i =? j) && list_eqb str_eqb l m && props_exact_eqb p q.
-Definition dedge_exact_eqb (a b : dedge) : bool :=
-  let '(i, s, d, t, p) := a in let '(j, s', d', t', q) := b in
-  (i =? j) && (s =? s') && (d =? d') && str_eqb t t' && props_exact_eqb p q.
-Definition snap_exact_eqb (a b : snapshot) : bool :=
-  (sn_version a =? sn_version b) && list_eqb dnode_exact_eqb (sn_nodes a) (sn_nodes b)
-  && list_eqb dedge_exact_eqb (sn_edges a) (sn_edges b).
-Definition dsnap_eqb (a b : option (snapshot * nat)) : bool :=
-  option_eqb (fun x y => snap_exact_eqb (fst x) (fst y) && (snd x =? snd y)%nat) a b.
-(** [bs]: bytes handed to [import_snapshot]; [d]: what the real decoder makes of them; [o]: the
-    observed result.  The model decodes the bytes itself. *)
-(** C07-K4 as the run sees it: a 64-bit length marker in bytes the model decoder rejects *)
-Definition kc07_4 (bs : bytes) : bool :=
-  k07_4 bs && match dec_snapshot bs with None => true | Some _ => false end.
-Definition chk_import_bytes (bs : bytes) (d : option (snapshot * nat)) (o : cobs) : bool :=
-  dsnap_eqb (dec_snapshot bs) d
-  && match import dec_snapshot bs, o with
-     | IErr, CErr => true
-     | IErr, CAbort => kc07_4 bs     (* the process was aborted while decoding: not modelled, tolerated only in class K4 *)
-     | IPanic, CPanic => true
-     | IOk m, COk _ _ _ _ => chk_copy m o
-     | _, _ => false
-     end.
-(** the exported bytes are the model's encoding of the enumeration the export made *)
-Definition chk_export_bytes (sn : snapshot) (bs : bytes) : bool :=
-  zlist_eqb (enc_snapshot sn) bs && dsnap_eqb (dec_snapshot bs) (Some (sn, length bs)).
-Definition kc07_2 (bs : bytes) : bool :=
-  match dec_snapshot bs with Some (_, n) => k07_2 bs n | None => false end.
-Definition kc07_3 (bs : bytes) : bool :=
-  match dec_snapshot bs with Some (sn, _) => k07_3 sn | None => false end.
-(** checkpoint.meta: bytes on disk against what the harness decoded *)
-Definition chk_meta (o : option bytes) (m : metafile) : bool := meta_eqb (metafile_of o) m.
